@@ -7,7 +7,7 @@ PROPERTY_MODULES = {
     "C02": ["contracts.c01", "contracts.c02"],
     "C07": ["contracts.c05", "contracts.c06", "contracts.c07"],
     "C08": ["contracts.c05", "contracts.c06", "contracts.c08"],
-    "C09": ["contracts.c09"],
+    "C09": ["contracts.c01", "contracts.c02", "contracts.c09"],
     "C10": ["contracts.c10"],
     "C11": ["contracts.c05", "contracts.c11"],
     "C12": ["contracts.c12"],
